@@ -415,11 +415,11 @@ def functional(ctx, model_ok):
     Returns (disagreements, judge_failures)."""
     rng = ctx.rng.fork("functional")
     quick = ctx.tier == "quick"
-    bcs = bc_cases(rng.fork("bc"), 10000 if quick else 150000)
-    fees = fee_cases(rng.fork("fee"), 300 if quick else 20000)
-    dusts = dust_cases(rng.fork("dust"), 300 if quick else 20000)
-    ncss = ncs_cases(rng.fork("ncs"), 1500 if quick else 40000)
-    abs_ = ab_cases(rng.fork("ab"), 1500 if quick else 40000)
+    bcs = bc_cases(rng.fork("bc"), 10000 if quick else 60000)
+    fees = fee_cases(rng.fork("fee"), 300 if quick else 5000)
+    dusts = dust_cases(rng.fork("dust"), 300 if quick else 5000)
+    ncss = ncs_cases(rng.fork("ncs"), 1200 if quick else 10000)
+    abs_ = ab_cases(rng.fork("ab"), 1200 if quick else 10000)
     inp = [bc_line(c) for c in bcs]
     inp += ["fee %d %d %d %d %d" % c for c in fees]
     inp += ["dust %d %d %d %d %d %d" % c for c in dusts]
@@ -648,8 +648,8 @@ def trace_layer(ctx):
     if "h_chan" not in BINS:
         return []
     quick = ctx.tier == "quick"
-    n, nl = (440, 60) if quick else (6000, 150)
-    keep = 32 if quick else 300
+    n, nl = (440, 60) if quick else (3000, 150)
+    keep = 32 if quick else 200
     lines = T.gen_schedules(ctx.rng.fork("trace"), n, nl)
     tot = {}
     fails = []
@@ -736,7 +736,7 @@ def run(ctx):
         okc, outc = ctx.coq_make(["Model/ChanSys.vo"])
         if okc:
             try:
-                nr, ns, mdis = T.model_correspondence(ctx, ctx.trace_recs, 32 if ctx.tier == "quick" else 300)
+                nr, ns, mdis = T.model_correspondence(ctx, ctx.trace_recs, 32 if ctx.tier == "quick" else 200)
                 ctx.coverage["model_replay"] = {"scenarios": nr, "steps": ns, "disagreements": len(mdis)}
             except Exception as ex:
                 mdis = [{"scenario": "?", "step": -1, "what": "model replay failed: %r" % (ex,)}]
